@@ -148,7 +148,7 @@ func buildReference() *reference {
 		switch w {
 		case 0:
 			name = "session-create"
-			req = &proto.WriteRequest{Puts: []*proto.PutRequest{{Key: server.SessionKey(server.SessionId(w)), Value: sessionMeta}}}
+			req = &proto.WriteRequest{Puts: []*proto.PutRequest{{Key: server.SessionKey(server.SessionId(w)), Value: append([]byte(nil), sessionMeta...)}}}
 		case 1:
 			name = "put-ephemeral(a)+put(b,idx)"
 			req = &proto.WriteRequest{Puts: []*proto.PutRequest{
